@@ -1,7 +1,7 @@
 """Assemble a Verus file for a unit: prelude (hand-written contracts/axioms) + text of /repo
 extracted by vx on this run.  Returns the path of the file and the mapping of generated lines to
 source lines."""
-import json, os, subprocess, sys, hashlib
+import json, re, os, subprocess, sys, hashlib
 try:
     import tomllib
 except ImportError:  # pragma: no cover
@@ -59,6 +59,10 @@ def generate(repo, unit, outdir, canary=False):
         raise Undecided("extraction: " + "; ".join(e["kind"] + ": " + e["msg"] for e in res["errors"]))
     prelude_path = os.path.join(VERIF, "contracts", "verus", unit["prelude"])
     prelude = open(prelude_path).read()
+    # `// @@INCLUDE name@@`: a shared block of contracts (contracts/verus/_name.inc.rs), textually included
+    def _inc(m):
+        return open(os.path.join(VERIF, "contracts", "verus", "_%s.inc.rs" % m.group(1))).read()
+    prelude = re.sub(r"^// @@INCLUDE ([a-z_0-9]+)@@$", _inc, prelude, flags=re.M)
     if MARK not in prelude:
         raise Undecided("prelude without marker")
     head, tail = prelude.split(MARK, 1)
